@@ -9,9 +9,12 @@ package main
 import (
 	"fmt"
 	"math/big"
+	"strconv"
 )
 
 func init() { extraKinds["bigarr"] = runBigArr }
+
+var cycleKinds = []string{"json", "int64", "decimal", "float64", "uint64", "int", "jsonexp"}
 
 func runBigArr(m map[string]any) Result {
 	expr, err := cpsToString(m["expr"])
@@ -32,10 +35,19 @@ func runBigArr(m map[string]any) Result {
 		x, _ := v.Int64()
 		n = int(x)
 	}
+	mult, scale := intField(m, "mult"), intField(m, "scale")
 	arr := &TV{T: "arr", A: make([]*TV, n)}
 	for i := 0; i < n; i++ {
-		x := new(big.Int).Add(base, big.NewInt(int64(n-1-i)))
-		arr.A[i] = numTV(x.String())
+		off := n - 1 - i // descending
+		if mult > 1 {
+			off = (mult * i) % n // shuffled (mult is coprime to n)
+		}
+		x := new(big.Int).Add(base, big.NewInt(int64(off)))
+		text := x.String()
+		if scale != 0 {
+			text += "e" + strconv.Itoa(scale)
+		}
+		arr.A[i] = numTV(text)
 	}
 	doc := &TV{T: "obj", O: []Mem{{"x", arr}}}
 	ran := 0
@@ -44,6 +56,13 @@ func runBigArr(m map[string]any) Result {
 		cs := make([]string, n)
 		for i := range cs {
 			cs[i] = kind
+			if kind == "cycle" {
+				// a different Go type from element to element; json.Number where the type cannot hold the value
+				cs[i] = cycleKinds[i%len(cycleKinds)]
+				if _, ok := numCarrier(arr.A[i], cs[i]); !ok {
+					cs[i] = "json"
+				}
+			}
 		}
 		b := &builder{carriers: cs}
 		docGo := b.build(doc)
